@@ -223,9 +223,19 @@ def run_check(prop, tier, seed, replay=None):
                     drift.append({"op": op[:300], "impl": il[:300], "model": ml[:300]})
             if len(samples) < 6 and idx % max(1, len(ops) // 6) == 0:
                 samples.append({"op": op[:200], "impl": il[:240]})
-        for v in prop.relation(ops, impl):
-            violations.append(v)
-        if hasattr(prop, "nontrivial_all"):
+        try:
+            for v in prop.relation(ops, impl):
+                violations.append(v)
+        except Exception as e:
+            if not replay:
+                raise
+            notes.append("relation not evaluated in replay mode (%s: %r); projection comparison only" % (type(e).__name__, e))
+        if replay:
+            for op, il, ml in zip(ops, impl, model):
+                print("op    %s" % op[:400])
+                print("impl  %s" % il[:400])
+                print("model %s" % (ml[:400] if ml else ml))
+        if hasattr(prop, "nontrivial_all") and not replay:
             nontriv |= set(prop.nontrivial_all(ops, impl))
         for c in crashed:
             notes.append("evaluator crash: %r" % (c,))
